@@ -15,6 +15,7 @@ PROPS = {
             {"pkg": "ord", "name": "VH_C20_ListAccept2D", "quick": {"params": {"U2": 3, "FQ": 0}}, "thorough": {"params": {"U2": 4, "FQ": 1}}},
             {"pkg": "ord", "name": "VH_C20_BidAccept2D", "quick": {"params": {"U2": 3, "FQ": 0}}, "thorough": {"params": {"U2": 3, "FQ": 1}}},
             {"pkg": "ord", "name": "VH_C20_InscribeTwice"},
+            {"pkg": "ord", "name": "VH_C20_BidSurplus", "quick": {"params": {"N": 4}}, "thorough": {"params": {"N": 4}}},
             {"pkg": "ord", "name": "VH_C20_Inscribe", "quick": {"params": {"BIG": 2}}, "thorough": {"params": {"BIG": 2}}},
         ],
         "assumptions": [],
